@@ -147,7 +147,7 @@ fn uid_base(rng: &mut Rng, idx: u64, k: usize) -> String {
     format!("1.2.826.0.1.3680043.9.{}.{}.{}", idx + 1, k + 1, rng.below(1_000_000))
 }
 
-pub const UID_CLASSES: [&str; 16] = [
+pub const UID_CLASSES: [&str; 18] = [
     "plain",
     "parent-ref",
     "parent-ref-deep",
@@ -164,6 +164,9 @@ pub const UID_CLASSES: [&str; 16] = [
     "long-ok",
     "long-over",
     "backslash",
+    // separators hidden among characters that are legal in a UID (digits and dots only)
+    "parent-ref-numeric",
+    "subdir-numeric",
 ];
 
 /// the Affected SOP Instance UID text for a class
@@ -185,6 +188,8 @@ fn hostile_uid(rng: &mut Rng, class: &str, base: &str, tmp: &Path) -> String {
         "long-ok" => format!("{}.{}", base, "7".repeat(180)),
         "long-over" => format!("{}.{}", base, "8".repeat(300)),
         "backslash" => format!("..\\{}", base),
+        "parent-ref-numeric" => format!("../9.{}", base),
+        "subdir-numeric" => format!("1.2/{}", base),
         _ => unreachable!(),
     }
 }
@@ -909,7 +914,7 @@ fn one_case(cfg: &Cfg, l: &mut Local, rng: &mut Rng, idx: u64, oparse: &Mutex<Op
 }
 
 pub fn run(cfg: &Cfg) -> Outcome {
-    let rule = "real dicom-storescp (sync / --non-blocking; random --promiscuous, --uncompressed-only, --strict, -m) in a sentinel tree; scripted dicom-ul requestor: 1-3 associations x 1-3 C-STOREs of G-DS data sets encoded by the reference encoder in the negotiated TS (Implicit/Explicit LE, Explicit BE, Deflated, Encapsulated Uncompressed, RLE, JPEG baseline), 8 fragmentation styles (incl. zero-length data fragments, last-flagged or in the middle), 16 Affected SOP Instance UID classes; tree walk + stored file vs sent data set (dicom-object + cmp; O-PARSE leg in the driver); class = (mode, TS, uid class, fragmentation style, fragment count class)";
+    let rule = "real dicom-storescp (sync / --non-blocking; random --promiscuous, --uncompressed-only, --strict, -m) in a sentinel tree; scripted dicom-ul requestor: 1-3 associations x 1-3 C-STOREs of G-DS data sets encoded by the reference encoder in the negotiated TS (Implicit/Explicit LE, Explicit BE, Deflated, Encapsulated Uncompressed, RLE, JPEG baseline), 8 fragmentation styles (incl. zero-length data fragments, last-flagged or in the middle), 18 Affected SOP Instance UID classes; tree walk + stored file vs sent data set (dicom-object + cmp; O-PARSE leg in the driver); class = (mode, TS, uid class, fragmentation style, fragment count class)";
     if let Err(e) = proc::tool(cfg, "dicom-storescp") {
         let mut o = Outcome::new(Local::new(), rule);
         o.inconclusive = Some(e);
